@@ -784,10 +784,16 @@ impl<'a> crate::ranger::Store<SignedEntry> for StoreInstance<'a> {
             );
             tables.records_by_key.insert(key, ())?;
 
-            // insert into latest table
+            // insert into latest table, unless the author's head is already newer
             let key = (&e.id().namespace().to_bytes(), &e.id().author().to_bytes());
             let value = (e.timestamp(), e.id().key());
-            tables.latest_per_author.insert(key, value)?;
+            let is_newer = match tables.latest_per_author.get(key)? {
+                Some(head) => value >= head.value(),
+                None => true,
+            };
+            if is_newer {
+                tables.latest_per_author.insert(key, value)?;
+            }
             Ok(())
         })
     }
